@@ -33,11 +33,12 @@ import OFV.Lemmas.Walk2
 import OFV.Lemmas.Walk3
 import OFV.Lemmas.Walk4
 import OFV.Lemmas.Walk5
+import OFV.Lemmas.Walk6
 import OFV.Lemmas.LayNat
 import OFV.Lemmas.FrameMsg
 import OFV.Lemmas.RepMsg
 namespace OFV.Props.C02c
-open OFV OFV.Go OFV.Model OFV.Spec OFV.Elem OFV.Walk2 OFV.Walk3 OFV.Walk4 OFV.Walk5 OFV.Props.C02b
+open OFV OFV.Go OFV.Model OFV.Spec OFV.Elem OFV.Walk2 OFV.Walk3 OFV.Walk4 OFV.Walk5 OFV.Walk6 OFV.Props.C02b
 
 /-- a list of encodings whose sizes are the reported 16-bit sizes, fitting 16 bits in total -/
 theorem flat_sum (ls : List UInt16) (bss : List Bytes) (h : bss.map List.length = ls.map UInt16.toNat)
@@ -487,6 +488,41 @@ theorem actionSetField_accept (hd f : V) (hkf : FieldKnown f) (l : UInt16) (v1 :
     rw [this, hmid, List.drop_drop, hzero]
     rfl
 
+/-- reg_load2 (Nicira subtype 33) with the header NewNXActionRegLoad2 stores (any stored length: the encoder overwrites
+    it), for EVERY known field: the real walker accepts the action — the embedded OXM TLV is legal, the action is 10 +
+    the field rounded up to 8, zero padded -/
+theorem nxRegLoad2_accept (hd f pad : V) (hkf : FieldKnown f) (ln : Nat) (bs : Bytes) (v2 : V)
+    (hwf : nxhdr (.obj "NXActionRegLoad2" [hd, f, pad]) = some (0xffff, ln, 0x2320, 33))
+    (h : NXActionRegLoad2.marshalM (.obj "NXActionRegLoad2" [hd, f, pad]) = .ok (bs, v2)) : Accepted bs := by
+  obtain ⟨hal, hnx, hd', f', pad', fb, f'', heq, hfm, hmid, hzero⟩ := nxRegLoad2_wire _ bs v2 _ _ _ _ hwf h
+  cases heq
+  have h' := h
+  unfold NXActionRegLoad2.marshalM at h'
+  obtain ⟨⟨l0, va⟩, hl0, _⟩ := bind_ok_inv _ _ _ h'
+  have hs := C06b.nxRegLoad2_size _ l0 va bs v2 hl0 h
+  unfold NXActionRegLoad2.lenM at hl0
+  simp only at hl0
+  split at hl0
+  · exact absurd hl0 (by simp)
+  · obtain ⟨⟨fl, f1⟩, hfl, hl2⟩ := bind_ok_inv _ _ _ hl0
+    have el : l0 = Model.round8 (10 + fl) := by cases hl2; rfl
+    have hfsz := C06.matchField_size _ fl f1 fb f'' hfl hfm
+    have hfle := C06b.matchField_len_le _ _ _ hfl
+    have hp : (2 : Nat) ^ 16 = 65536 := rfl
+    have e4 : (10 + fl : UInt16).toNat = 10 + fb.length := by
+      have h10 : (10 : UInt16).toNat = 10 := rfl
+      rw [UInt16.toNat_add, h10, hp, hfsz]; omega
+    have hge := C02.round8_ge (10 + fl) (by omega)
+    rw [← el, ← hs, e4] at hge
+    have hox := matchField_accept _ hkf fb f'' hfm
+    have hpos := hox.1
+    refine accepted_of _ _ (accept_regLoad2 bs fb (oxmTree fb) (by omega) hal hnx.code_ok hnx.len_ok hnx.vendor_ok
+      hnx.sub_ok hox ?_ ?_)
+    · unfold Spec.round8; omega
+    · have : bs.drop 10 = (bs.drop 10).take fb.length ++ (bs.drop 10).drop fb.length := (List.take_append_drop _ _).symm
+      rw [this, hmid, List.drop_drop, hzero]
+      rfl
+
 /-! ### single actions: the REAL walker (`Spec.walkAction`) accepts what the library writes -/
 
 /-- an output action with the header NewActionOutput stores (type 0, length 16), ANY port and max-length, 6 zero pad
@@ -546,7 +582,8 @@ def nxFixedKinds : List String := ["NXActionConjunction", "NXActionRegLoad", "NX
     output (6 zero pad bytes), group, set-queue, dec-nw-ttl, pop-vlan, push-vlan/mpls/pbb, pop-mpls, set-mpls-ttl,
     set-nw-ttl, and the fixed-size Nicira actions conjunction, reg-load, reg-move, resubmit, resubmit-table (also the
     ct variant), output-reg, ct-clear, dec-ttl, controller (whatever length is stored), note (any note of at most
-    65 518 bytes), set-field of any known match field with the stored Length = Len() — any field values -/
+    65 518 bytes), set-field of any known match field with the stored Length = Len(), reg_load2 of any known match field — any field
+    values -/
 def ActionKnown (v : V) : Prop :=
   (∃ port ml, v = .obj "ActionOutput" [ActionHeader.mk 0 16, .num port, .num ml, .bytes (zeros 6)]) ∨
   (v.kind = "ActionGroup" ∧ ahdr v = some (22, 8)) ∨
@@ -562,7 +599,9 @@ def ActionKnown (v : V) : Prop :=
   (∃ hd note ln, v = .obj "NXActionNote" [hd, .bytes note] ∧ note.length ≤ 65518 ∧ nxhdr v = some (0xffff, ln, 0x2320, 8)) ∨
   (∃ hd f l v1, v = .obj "ActionSetField" [hd, f] ∧ FieldKnown f ∧
     ActionSetField.lenM (.obj "ActionSetField" [hd, f]) = .ok (l, v1) ∧
-    ahdr (.obj "ActionSetField" [hd, f]) = some (25, l.toNat))
+    ahdr (.obj "ActionSetField" [hd, f]) = some (25, l.toNat)) ∨
+  (∃ hd f pad ln, v = .obj "NXActionRegLoad2" [hd, f, pad] ∧ FieldKnown f ∧
+    nxhdr (.obj "NXActionRegLoad2" [hd, f, pad]) = some (0xffff, ln, 0x2320, 33))
 
 macro "act_leaf0" v:ident hk:ident h:ident K:ident : tactic => `(tactic| (
   have e : Action.marshalM $v = $K $v := by
@@ -575,7 +614,7 @@ theorem action_accept (v : V) (hk : ActionKnown v) (bs : Bytes) (v2 : V) (h : Ac
     Accepted bs := by
   rcases hk with ⟨port, ml, rfl⟩ | ⟨hk, ha⟩ | ⟨hk, ha⟩ | ⟨hk, ha⟩ | ⟨hk, ha⟩ | ⟨hk, ty, hty, ha⟩ | ⟨hk, ha⟩ | ⟨hk, ha⟩ |
     ⟨hk, ha⟩ | ⟨hk, sub, sz, hs, hn⟩ | ⟨hk, ln, hn⟩ | ⟨hd, note, ln, rfl, hfit, hn⟩ |
-    ⟨hd, f, l, v1, rfl, hkf, hl, hwf⟩
+    ⟨hd, f, l, v1, rfl, hkf, hl, hwf⟩ | ⟨hd, f, pad, ln, rfl, hkf, hwf⟩
   · have e : Action.marshalM (.obj "ActionOutput" [ActionHeader.mk 0 16, .num port, .num ml, .bytes (zeros 6)]) =
         ActionOutput.marshalM (.obj "ActionOutput" [ActionHeader.mk 0 16, .num port, .num ml, .bytes (zeros 6)]) := by
       simp [Action.marshalM, Action.marshalD, Action.marshalLeaf, V.kind]
@@ -639,6 +678,10 @@ theorem action_accept (v : V) (hk : ActionKnown v) (bs : Bytes) (v2 : V) (h : Ac
       simp [Action.marshalM, Action.marshalD, Action.marshalLeaf, V.kind]
     rw [e] at h
     exact actionSetField_accept hd f hkf l v1 bs v2 hl hwf h
+  · have e : Action.marshalM (.obj "NXActionRegLoad2" [hd, f, pad]) = NXActionRegLoad2.marshalM (.obj "NXActionRegLoad2" [hd, f, pad]) := by
+      simp [Action.marshalM, Action.marshalD, Action.marshalLeaf, V.kind]
+    rw [e] at h
+    exact nxRegLoad2_accept hd f pad hkf ln bs v2 hwf h
 
 /-! ### buckets and group-mod through the real walker -/
 
